@@ -26,6 +26,10 @@ WORK = VERIF / ".work" / f"p{os.getpid()}"
 KNOWN = VERIF / "known_findings.json"
 
 os.environ.setdefault("HITEN_VERIF", "1")
+# numba's OpenMP workers spin while idle; on a shared machine that starves everybody (measured: 20 min -> see DESIGN 9)
+os.environ.setdefault("OMP_WAIT_POLICY", "passive")
+os.environ.setdefault("KMP_BLOCKTIME", "0")
+os.environ.setdefault("GOMP_SPINCOUNT", "0")
 os.environ.setdefault("PYTHONHASHSEED", "0")
 if str(REPO / "src") not in sys.path:
     sys.path.insert(0, str(REPO / "src"))
